@@ -517,6 +517,11 @@ pub fn gen_c08(rng: &mut Prng, thorough: bool, out: &mut Out) {
             if t > 2 { sizes.push(t - 1); }
             if t < n { sizes.push(t + 1); }
             sizes.push(2);
+            if n > 60 {
+                // interpolation over hundreds of points is quadratic in the (slow, extracted) model arithmetic:
+                // exactly-threshold and the two-share error path only
+                sizes = vec![t, 2];
+            }
             for sz in sizes {
                 if sz > n || sz > 24 && !thorough { continue; }
                 let mut ids: Vec<u64> = (1..=n as u64).collect();
